@@ -686,6 +686,43 @@ theorem readTable_safe (ts : UInt64) (stepOk : Nat → Bool) : ∀ a ∈ (readTa
   · have := tableBlockCount_ge ts; omega
   · simp
 
+theorem readTableLoop_no_fuel (total blockCount : Nat) (stepOk : Nat → Bool) :
+    ∀ (fuel : Nat) (tableSize : UInt64) (blkIdx done : Nat) (acc : List Access),
+      (tableSize.toNat + 8191) / 8192 < fuel →
+      (readTableLoop total blockCount stepOk fuel tableSize blkIdx done acc).1 ≠ .error .fuel := by
+  intro fuel
+  induction fuel with
+  | zero => intro ts bi dn acc h; omega
+  | succ fuel ih =>
+    intro ts bi dn acc h
+    unfold readTableLoop
+    split
+    · simp
+    rename_i hts
+    have hts0 : ts.toNat ≠ 0 := by
+      intro h0; apply hts; simp; exact UInt64.toNat_inj.1 (by simpa using h0)
+    simp only []
+    split
+    · simp
+    · have e8 : (8192 : UInt64).toNat = 8192 := by rfl
+      have hmin : (if (8192 : UInt64) > ts then ts else 8192).toNat ≤ ts.toNat ∧
+          ((if (8192 : UInt64) > ts then ts else 8192).toNat = ts.toNat ∧ ts.toNat ≤ 8192 ∨
+           (if (8192 : UInt64) > ts then ts else 8192).toNat = 8192) := by
+        split
+        · rename_i h; have := UInt64.lt_iff_toNat_lt.1 h; rw [e8] at this; omega
+        · rename_i h; rw [UInt64.not_lt, UInt64.le_iff_toNat_le, e8] at h; rw [e8]; omega
+      generalize (if (8192 : UInt64) > ts then ts else 8192) = diff at hmin
+      have hle : diff ≤ ts := UInt64.le_iff_toNat_le.2 hmin.1
+      apply ih
+      rw [UInt64.toNat_sub_of_le _ _ hle]; omega
+
+theorem readTable_no_fuel (ts : UInt64) (stepOk : Nat → Bool) : (readTable ts stepOk).1 ≠ .error .fuel := by
+  unfold readTable
+  simp only []
+  apply readTableLoop_no_fuel
+  have := tableBlockCount_ge ts
+  omega
+
 /-! ## read_inode -/
 
 theorem allocFlex_some (base item n alloc : UInt64) (h : allocFlex base item n = some alloc) :
